@@ -16,6 +16,19 @@ LATE = {
  'C11-f': 'the obligation "length untouched when a fixed-capacity backend refuses to grow" was added for this round, but the runner accepted ANY failure located in the refusing function as the expected panic and so hid it: the runner now never treats a contract assertion of the harness module as an expected failure',
  'C18-f': 'state at a library panic was not observable (Kani has no unwinding): core\'s unwrap/expect panic entry points are now replaced by observing twins that assert the HeapMem still describes the allocation it owns',
  'C03-g': 'no harness called an overridable provided method of the range iterators; the mutant adds O(1) `nth`/`nth_back` overrides that skip without destroying. Added the nth / nth_back contract (k1_handles::range_nth_h: skipped elements are destroyed, each once)',
+ 'C11-m': 'MISSED when first run: a `Clone::clone_from` override that reuses storage only when the element TYPES match reserves old_len + source_len; the clone_from harness (written for round 6) used two different element types. Added an instance with equal types (clone_from_same_stack)',
+ 'C04-m': 'first run: UNDECIDED (inventory guard; the harness did not fail): a `clone_from` override that reuses storage when the element LAYOUTS match keeps the stale type id; the clone_from harness used types of different alignment. Added an instance with two types of equal layout (clone_from_samelayout_stack)',
+ 'C09-m': 'predicted from the agent\'s summary: same shape as C04-m (stale clone function); caught by clone_from_samelayout_stack, which also serves C09',
+ 'C12-m': 'predicted from the agent\'s summary: `clone_from` reusing storage built for a less aligned type; the clone_from harness now uses destination alignment 1 / source alignment 8 and asserts the reported element layout and the storage alignment',
+ 'C15-m': 'MISSED when first run: the `Send` impl of the raw-typed-pointer iterator (behind `AnyVecTyped::drain/splice`) dropped its `T: Send` requirement; the judgement table had rows for the erased iterators and the typed views only. Added rows for `iter::Iter<AnyVecRawPtr<T, M>>` and the typed Drain / Splice wrappers (t_handles2)',
+ 'C15-n': 'MISSED when first run: removal handles of vectors declared without `Cloneable` gained `AnyValueCloneable`; the table had no clone-capability rows for handles. Added `[Element / Pop / Remove / SwapRemove: AnyValueCloneable] == (constraints include Cloneable)` for every constraint set and backend',
+ 'C12-n': 'first run: UNDECIDED (inventory guard): the inline backends stopped refusing over-aligned ZERO-SIZED element types; there was no refusal harness at all (only accepted alignments were instantiated). Added stack(n)_overaligned_{za128,a128}: build cannot return',
+ 'C07-m': 'MISSED when first run: the forget instances of remove / swap_remove on a zero-sized element type were thorough-tier only (the mutant lowers the length to 0 instead of the index for ZSTs). Moved to the quick tier',
+ 'C11-n': 'predicted from the agent\'s summary: `StackNMem` overrides `Mem::expand` and grows into its slack bytes; added inline_overflow_h (push beyond a real inline backend with slack cannot return)',
+ 'C13-m': 'caught by inline_views_stackn_2_24_u32 (added in round 5 for the same class: a provided `Mem` method overridden by `StackNMem`)',
+ 'C14-n': 'predicted from the agent\'s summary: `Iter::clone_from` override; iter_h now also clones into an existing iterator in a different state',
+ 'C17-n': 'predicted from the agent\'s summary: a provided `MemRawParts` method overridden by `HeapMem` releases the buffer of an empty vector; added k1_heap::heap_vec_rawparts_h (raw-parts round trip of a real heap-backed vector against the allocator model)',
+ 'C01-m': 'predicted from the agent\'s summary: `HeapMem::resize` replaced realloc by alloc + short copy + dealloc for over-aligned types; the allocator-protocol harness reports it (two live blocks) but served C18/C10/C12 only; it now serves C01 and C05 as well',
  'C19-k': 'first run: UNDECIDED (the function-inventory guard saw the new helper; no harness failed): the no-alloc build computes the `Stack` capacity with a shift, wrong only for element sizes that are not a power of two, and the no-default-features copies had only 8-byte instances in the quick tier. Added one no-default-features copy per harness family, incl. stack_build_e3_9 / e24_48',
  'C19-l': 'MISSED when first run: whole-vector clone memcpys elements without drop glue in the no-alloc build; no clone harness of a type without drop glue was copied to the no-default-features build. Same addition (clone_nodrop_e8_na)',
  'C06-k': 'MISSED when first run: `insert_unchecked` lowers the length only on the type-erased branch; every lazy-clone harness used an erased source, so the known-type branch never ran user code. Added a user-implemented cloneable source with `type Type = T` (k2_insert::KnownSrc, insert/push_lazy_clone_known_e8)',
@@ -72,7 +85,9 @@ passes without) and are kept under `/verif/seeded/<id>/` (`patch.diff`, `demo.rs
 NOT be reported.
 
 Every seeded change is reported as a VIOLATION by the **quick** check of its property. Honest accounting: %d of
-the %d were predicted (before running them) to be missed, or (C13-g, C03-g, C11-f and six of the twelve round-5 changes: C04-j, C09-i, C11-i, C11-j, C12-i, C12-j) were actually missed when first run,
+the %d were predicted (before running them) to be missed, or (C13-g, C03-g, C11-f; six of the twelve round-5 changes: C04-j, C09-i, C11-i, C11-j, C12-i, C12-j; six of the sixteen
+round-6 changes: C05-l, C06-k, C10-k, C10-l, C19-k, C19-l; six of the twenty round-7 changes: C04-m, C07-m, C11-m, C12-n, C15-m, C15-n)
+were actually missed (exit 0, or exit 2 from the function-inventory guard) when first run,
 by the checks as they stood when the change arrived; for
 those the registry / harness was strengthened first — the table says how. What the misses had in common: the
 *contract* existed, but no *instance* exercised the configuration (element type without drop glue, zero-sized
